@@ -30,6 +30,8 @@ func init() {
 			{"C19.tainted-loops", "loops bounded by an input value consume input each iteration", 1, c19TaintedLoops},
 			{"C19.exact-reads", "fixed-size fields are read completely (no direct Read in the decoding primitives; byte counts used)", 1, func(c *Ctx) { c.exactReads() }},
 			{"C19.fixed-size", "fixed-size elements check their size field", 2, c19FixedSize},
+			{"C19.payload-complete", "a payload that ends before its announced size is an error, not the end of the stream", 1, c19PayloadComplete},
+			{"C19.archive-ends-clean", "the archive decoder reports the end only between entries and with every directory closed", 1, c19ArchiveEndsClean},
 			{"C19.header-eof", "an end of the stream inside an element header is an error, not the regular end", 1, c19HeaderEOF},
 		},
 	})
@@ -1032,5 +1034,180 @@ func c19HeaderEOF(c *Ctx) {
 		c.bad("reader.ReadHeader:mid-header-eof", fn.Pos(), "%s: FormatDecoder.Next takes io.EOF for the regular end of the stream, a catar or index cut in the middle of an element header decodes without an error", bad[0])
 	default:
 		c.ok("reader.ReadHeader:mid-header-eof", fn.Pos(), "on %d path(s) an end of the stream inside the header is returned as an error other than io.EOF", eofPaths)
+	}
+}
+
+// holdsAtZero: does "x op k" hold for x == 0 (k a constant)?  ok=false when k is not a constant.
+func holdsAtZero(op token.Token, k ssa.Value, xOnLeft bool) (bool, bool) {
+	kc, isK := k.(*ssa.Const)
+	if !isK || kc.Value == nil {
+		return false, false
+	}
+	kv := constInt64(kc)
+	l, r := int64(0), kv
+	if !xOnLeft {
+		l, r = kv, 0
+	}
+	switch op {
+	case token.EQL:
+		return l == r, true
+	case token.NEQ:
+		return l != r, true
+	case token.LSS:
+		return l < r, true
+	case token.LEQ:
+		return l <= r, true
+	case token.GTR:
+		return l > r, true
+	case token.GEQ:
+		return l >= r, true
+	}
+	return false, false
+}
+
+// zeroEdgeOf returns an acceptFn for comparisons of a value selected by isX with a constant:
+// the accepting edge is the one consistent with x == 0.
+func zeroEdgeOf(isX func(ssa.Value) bool) acceptFn {
+	return func(iff *ssa.If) (bool, bool) {
+		cm, truth, ok := cmpOf(iff.Cond)
+		if !ok {
+			return false, false
+		}
+		var holds, known bool
+		switch {
+		case isX(cm.x):
+			holds, known = holdsAtZero(cm.op, cm.y, true)
+		case isX(cm.y):
+			holds, known = holdsAtZero(cm.op, cm.x, false)
+		}
+		if !known {
+			return false, false
+		}
+		onTrue := holds == truth
+		return onTrue, !onTrue
+	}
+}
+
+// c19PayloadComplete: a payload that ends before the announced size is an error.  The payload
+// of a file is handed out as a reader limited to the size field; whoever copies it sees a clean
+// end when the stream is cut inside it, and the decoder's next header read sees a clean end too -
+// a catar truncated inside a file body unpacked without an error, with a short file.  The next
+// header is therefore read only when no payload is pending, or the pending one has no byte
+// outstanding.
+func c19PayloadComplete(c *Ctx) {
+	fn := c.mustFn("FormatDecoder.Next")
+	if fn == nil {
+		return
+	}
+	isAdvance := func(v ssa.Value) bool {
+		return hasOrigin(v, func(o string) bool { return o == "field:FormatDecoder.advance" })
+	}
+	isRemaining := func(v ssa.Value) bool {
+		return hasOrigin(v, func(o string) bool { return o == "field:LimitedReader.N" })
+	}
+	zero := zeroEdgeOf(isRemaining)
+	acc := func(iff *ssa.If) (bool, bool) {
+		// no payload pending
+		if cm, truth, ok := cmpOf(iff.Cond); ok && (cm.op == token.EQL || cm.op == token.NEQ) {
+			isNil := func(v ssa.Value) bool { k, ok := v.(*ssa.Const); return ok && k.Value == nil }
+			if (isAdvance(cm.x) && isNil(cm.y)) || (isAdvance(cm.y) && isNil(cm.x)) {
+				eqOnTrue := (cm.op == token.EQL) == truth
+				return eqOnTrue, !eqOnTrue
+			}
+		}
+		// the pending reader is not a limited reader (never the case: Next stores nothing else)
+		if ex, ok := stripNot(iff.Cond).(*ssa.Extract); ok && ex.Index == 1 {
+			if ta, ok := ex.Tuple.(*ssa.TypeAssert); ok && ta.CommaOk && isAdvance(ta.X) {
+				neg := iff.Cond != ssa.Value(ex)
+				return neg, !neg
+			}
+		}
+		return zero(iff)
+	}
+	n := 0
+	for _, ci := range calls(fn, named("(desync.reader).ReadHeader")) {
+		n++
+		okG, _ := guarded(fn, ci.(ssa.Instruction), acc)
+		c.verdict(okG, "FormatDecoder.Next:payload-complete", ci.Pos(), "the next header is read only when no payload is pending or the pending payload has no byte outstanding", "the next element header is read although a pending payload may have ended before its announced size (no test of the limited reader's remaining count): a catar cut inside a file body decodes without an error and leaves a short file")
+	}
+	if n == 0 {
+		c.bad("FormatDecoder.Next:payload-complete", fn.Pos(), "FormatDecoder.Next does not read element headers through reader.ReadHeader")
+	}
+}
+
+// c19ArchiveEndsClean: the archive decoder reports the end of the archive only between entries
+// and with every directory closed.  A catar cut at an element boundary (after an entry header,
+// after a filename, before a goodbye) is a truncated archive, not a shorter one.
+func c19ArchiveEndsClean(c *Ctx) {
+	fn := c.mustFn("ArchiveDecoder.Next")
+	if fn == nil {
+		return
+	}
+	isEntryPtr := func(v ssa.Value) bool {
+		p, ok := v.Type().Underlying().(*types.Pointer)
+		return ok && typeName(p.Elem()) == "desync.FormatEntry"
+	}
+	entryNil := func(iff *ssa.If) (bool, bool) {
+		cm, truth, ok := cmpOf(iff.Cond)
+		if !ok || (cm.op != token.EQL && cm.op != token.NEQ) {
+			return false, false
+		}
+		isNil := func(v ssa.Value) bool { k, ok := v.(*ssa.Const); return ok && k.Value == nil }
+		if !((isEntryPtr(cm.x) && isNil(cm.y)) || (isEntryPtr(cm.y) && isNil(cm.x))) {
+			return false, false
+		}
+		eqOnTrue := (cm.op == token.EQL) == truth
+		return eqOnTrue, !eqOnTrue
+	}
+	elemNil := func(iff *ssa.If) (bool, bool) {
+		cm, truth, ok := cmpOf(iff.Cond)
+		if !ok || (cm.op != token.EQL && cm.op != token.NEQ) {
+			return false, false
+		}
+		isNil := func(v ssa.Value) bool { k, ok := v.(*ssa.Const); return ok && k.Value == nil }
+		isElem := func(v ssa.Value) bool {
+			it, ok := v.Type().Underlying().(*types.Interface)
+			return ok && it.NumMethods() == 0
+		}
+		if !((isElem(cm.x) && isNil(cm.y)) || (isElem(cm.y) && isNil(cm.x))) {
+			return false, false
+		}
+		eqOnTrue := (cm.op == token.EQL) == truth
+		return eqOnTrue, !eqOnTrue
+	}
+	depthZero := zeroEdgeOf(func(v ssa.Value) bool {
+		return hasOrigin(v, func(o string) bool { return strings.HasPrefix(o, "field:ArchiveDecoder.") }) && types.Identical(v.Type().Underlying(), types.Typ[types.Int])
+	})
+	n := 0
+	instrsAll(fn, func(_ *ssa.BasicBlock, _ int, ins ssa.Instruction) {
+		ret, ok := ins.(*ssa.Return)
+		if !ok || ins.Parent() != fn || len(ret.Results) != 2 {
+			return
+		}
+		for _, r := range ret.Results {
+			if k, isK := r.(*ssa.Const); !isK || k.Value != nil {
+				return
+			}
+		}
+		// only the return taken for "the decoder has no more elements" (the nil case of the
+		// type switch on the decoded element); the return that closes the function behind the
+		// four node kinds is not an end-of-archive report
+		if okE, _ := guarded(fn, ins, elemNil); !okE {
+			return
+		}
+		n++
+		ok1, _ := guarded(fn, ins, entryNil)
+		ok2, _ := guarded(fn, ins, depthZero)
+		switch {
+		case !ok1:
+			c.bad("ArchiveDecoder.Next:end-between-entries", ins.Pos(), "the end of the archive is reported although an entry may be pending (no test that the entry read so far is nil): a catar cut after an entry header decodes without an error and the entry is dropped")
+		case !ok2:
+			c.bad("ArchiveDecoder.Next:end-between-entries", ins.Pos(), "the end of the archive is reported without a test that every directory entered was left again (no comparison of a directory counter with 0): a catar cut before a goodbye element decodes without an error")
+		default:
+			c.ok("ArchiveDecoder.Next:end-between-entries", ins.Pos(), "the end of the archive is reported only with no entry pending and the directory counter at 0")
+		}
+	})
+	if n == 0 {
+		c.bad("ArchiveDecoder.Next:end-between-entries", fn.Pos(), "no return that reports the end of the archive found")
 	}
 }
